@@ -83,7 +83,23 @@ def mutate(rng, msg: bytes) -> tuple[bytes, str]:
 
 def structured_junk(rng) -> tuple[bytes, str]:
     """Well-formed COSEM that is not a documented list, and genuine frames with an unusual LLC header."""
-    kind = rng.choice(("kaifa_odd_length", "kaifa_odd_length_frame", "llc_variant", "kamstrup_unknown_obis", "apdu_null_datetime", "datetime_ff"))
+    kind = rng.choice(("kaifa_odd_length", "kaifa_odd_length_frame", "llc_variant", "kamstrup_unknown_obis", "apdu_null_datetime", "datetime_ff", "deep_nesting", "deep_nesting"))
+    if kind == "deep_nesting":
+        # structures / arrays nested 5..40 deep (a grammar with alternatives that re-parse the same bytes is exponential in the depth)
+        depth = rng.choice((5, 8, 12, 16, 20, 24, 32, 40))
+        inner = ce.u32(rng.randrange(2**32)) if rng.random() < 0.5 else b"\x0f\x00"
+        body = inner
+        for _ in range(depth):
+            tag = rng.choice((1, 2, 2))
+            if rng.random() < 0.6:
+                body = bytes((tag, 2)) + body + rng.choice((b"\x0f\x00", b"\x16\x1b", ce.u32(1), b"\x00"))
+            else:
+                body = bytes((tag, 1)) + body
+        body = bytes((2, 1)) + body
+        if rng.random() < 0.5:
+            dt12, _ = dlms_gen.gen_datetime(rng)
+            return ce.apdu(body, dt12, True), kind
+        return body, kind
     if kind.startswith("kaifa_odd_length"):
         n = rng.choice((2, 3, 4, 5, 6, 7, 8, 10, 11, 12, 15, 16, 17, 19, 20, rng.randint(2, 40)))
         vals = []
@@ -140,6 +156,22 @@ def ascii_fragment(rng) -> bytes:
             return f"1-0:{rng.choice(('1.7.0', '1.8.0', '32.7.0', '9.9.9'))}({v}*{unit})\r\n".encode("ascii"), "ascii"
         except UnicodeEncodeError:
             return f"1-0:1.7.0({v}*{unit})\r\n".encode("utf-8"), "ascii"
+    if r < 0.26:
+        # hex text of a genuine message (a bridge may deliver frames as text): complete, with a digit missing, with blanks and line ends
+        name = rng.choice(sorted(fixtures.DLMS))
+        hx = fixtures.DLMS[name][2]
+        style = rng.choice(("plain", "odd", "spaced", "lines", "upper", "short"))
+        if style == "odd":
+            hx = hx[:-1]
+        elif style == "spaced":
+            hx = " ".join(hx[i : i + 2] for i in range(0, len(hx), 2))
+        elif style == "lines":
+            hx = "\r\n".join(hx[i : i + 32] for i in range(0, len(hx), 32))
+        elif style == "upper":
+            hx = hx.upper()
+        elif style == "short":
+            hx = hx[: rng.choice((15, 16, 17, 31, 33))]
+        return hx.encode("ascii"), "ascii"
     if r < 0.3:
         # a long run of one character class followed by one character of another class (regular expressions with nested
         # quantifiers, recursive descent and quadratic scans only show on such input)
